@@ -248,6 +248,12 @@ def run_matrix(case, tags):
     x = o.value
     if not (len(x) == r_ and np.asarray(x.lengths).tolist() == [c_] * r_ and x.dtype == dt and same_array(x.ravel(), m.ravel()) and x.tolist() == m.tolist() or (r_ and np.isnan(m.astype(float)).any() and same_array(x.ravel(), m.ravel()))):
         return violated("from_numpy_array(%s) reads back as %s" % (short(m), short(x)), tags)
+    if r_ > 0:
+        for what, f, e in (("x[-1]", lambda: x[r_ - 1].tolist(), m[-1].tolist()), ("x[::-1]", lambda: x[::-1].tolist(), m[::-1].tolist()),
+                           ("x[1:]", lambda: x[1:].tolist(), m[1:].tolist()), ("row lengths after x[::2]", lambda: np.asarray(x[::2].lengths).tolist(), [c_] * len(m[::2]))):
+            o = attempt(f)
+            if not o.ok or not same_array(np.array(o.value, dtype=object if False else None), np.array(e), dtype=False):
+                return violated("%s of from_numpy_array(%s) gives %s, expected %s" % (what, short(m), repr(o) if not o.ok else short(o.value), short(e)), tags + ["matrix-rows"])
     y = attempt(x.to_numpy_array)
     if not y.ok:
         return violated("to_numpy_array after from_numpy_array(%s matrix) raised %r" % (m.shape, y), tags)
